@@ -15,7 +15,7 @@
 (* harness realises); what matters is identity of values over time.        *)
 (***************************************************************************)
 EXTENDS Integers, Sequences, FiniteSets, TLC, Json
-CONSTANTS MaxLen
+CONSTANTS MaxLen, Randomised
 VARIABLES ws,      \* workspace: object handle -> value token
           hist,    \* the calls made so far
           last     \* result of the last call, as a term over argument values
@@ -57,7 +57,8 @@ Call(c) == /\ Len(hist) < MaxLen
            /\ hist' = Append(hist, c)
            /\ last' = ResultOf(c)
            /\ UNCHANGED ws                     \* no operation modifies any object of the workspace
-Next == \E c \in Calls : Call(c)
+\* Randomised: the simulator draws ONE call (TLC!RandomElement): every emitted history is an independent random path
+Next == IF Randomised THEN Call(RandomElement(Calls)) ELSE \E c \in Calls : Call(c)
 Spec == Init /\ [][Next]_vars
 
 ArgumentsUnchanged == [][ws' = ws]_vars
